@@ -99,7 +99,7 @@ pub fn plan(prop: &str, tier: &str) -> Option<Plan> {
             let flavours: &[&str] = if prop == "C08" { &DIRECTED } else { &ALL };
             // (n, max_l, val_range, shards)
             let bounds: Vec<(usize, usize, i8, usize)> = match (prop, tier) {
-                ("C06", "quick") => vec![(2, 3, 3, 1), (3, 3, 2, 4)],
+                ("C06", "quick") => vec![(2, 3, 3, 1), (3, 4, 2, 16), (4, 3, 2, 16)],
                 ("C06", _) => vec![(2, 4, 3, 1), (3, 4, 3, 16), (4, 3, 2, 16)],
                 (_, "quick") => vec![(2, 4, 0, 1), (3, 3, 0, 4)],
                 ("C08", _) | ("C07", _) => vec![(2, 5, 0, 2), (3, 4, 0, 16), (4, 3, 0, 8)],
@@ -108,6 +108,9 @@ pub fn plan(prop: &str, tier: &str) -> Option<Plan> {
             let mut jobs = Vec::new();
             for f in flavours {
                 for (n, l, vr, sh) in &bounds {
+                    // undirected filters range over both orientations of every edge (4^L subsets):
+                    // the two largest quick bounds of C06 are taken one edge smaller there
+                    let l = if prop == "C06" && tier == "quick" && f.contains("ungraph") && *n >= 3 { *l - 1 } else { *l };
                     jobs.extend(sharded(prop, "gsweep", f, tier, json!({"n": n, "max_l": l, "val_range": vr}), *sh));
                 }
                 if prop == "C06" {
@@ -195,7 +198,7 @@ pub fn plan(prop: &str, tier: &str) -> Option<Plan> {
         "C15" => {
             let mut jobs = Vec::new();
             for f in ["sync_digraph", "sync_ungraph"] {
-                let read: Vec<(usize, usize, usize)> = if tier == "quick" { vec![(2, 3, 2), (3, 2, 4)] } else { vec![(2, 4, 4), (3, 3, 16), (4, 2, 8)] };
+                let read: Vec<(usize, usize, usize)> = if tier == "quick" { vec![(2, 3, 2), (3, 3, 16)] } else { vec![(2, 4, 4), (3, 3, 16), (4, 2, 8)] };
                 for (n, l, sh) in read {
                     jobs.extend(sharded(prop, "lockstep", f, tier, json!({"n": n, "max_l": l, "mode": "read"}), sh));
                 }
@@ -208,7 +211,7 @@ pub fn plan(prop: &str, tier: &str) -> Option<Plan> {
                 jobs,
                 level: "model_checking".into(),
                 rule: "lock-step product exploration: (a) BFS over the plain flavour's adjacency state space, every transition applied to a plain and a sync object built from the same history, returns and complete observations compared; (b) on every canonical shape the whole read-only API (queries, comparison operators, edge equality, every search/ordering configuration with every filter subset, container calls, scc, DOT, JSON/CBOR) is run on both flavours and the transcripts compared entry by entry. evaluations = transitions + transcript entries compared".into(),
-                bounds: json!({"quick": "read: (2 nodes,<=3 edges),(3,<=2); mutate: (2,4,2 values),(3,3,2)", "thorough": "read: (2,4),(3,3),(4,2); mutate: (2,5,2),(3,4,2),(4,3,1)"}),
+                bounds: json!({"quick": "read: (2 nodes,<=3 edges),(3,<=3), each with distinct and with all-equal node values; mutate: (2,4,2 values),(3,3,2)", "thorough": "read: (2,4),(3,3),(4,2); mutate: (2,5,2),(3,4,2),(4,3,1)"}),
                 exhaustive: true,
                 assumptions: vec![
                     "only calls present in both members of a pair are compared; sizeof() (bytes of the representation) is not a key/value result and is excluded".into(),
@@ -237,9 +240,16 @@ pub fn plan(prop: &str, tier: &str) -> Option<Plan> {
                 json!({"max_edges": 3, "max_depth": 7, "seeds": [0, 1, 2, 3, 4, 5, 6, 7], "dot_attr_max_edges": 2})
             };
             Some(Plan {
-                jobs: ALL.iter().map(|f| job(prop, "cont", f, tier, params.clone())).collect(),
+                jobs: ALL
+                    .iter()
+                    .flat_map(|f| {
+                        let mut owned = params.clone();
+                        owned["container_owned"] = json!(true);
+                        vec![job(prop, "cont", f, tier, params.clone()), job(prop, "cont", f, tier, owned)]
+                    })
+                    .collect(),
                 level: "model_checking".into(),
-                rule: "BFS over (member map, adjacency) states reached by histories of insert (5 node objects: 3 graph nodes and 2 same-key impostors with different values), remove, and connect/try_connect/disconnect/isolate applied through handles taken from the container (get / index alternating) or, for non-members, the program's own handles; after every step every view (contains, len, is_empty, get, index, to_vec, iter, roots, leaves, orphans) is compared with a map model plus the reference adjacency, return values of insert/remove with the model, edge operations with the C03 contract observed through the program's own handles (identity), and the DOT exports are parsed statement by statement (to_dot on every state and every hash seed, to_dot_with_attr for all 4^3 callback combinations on small states); the three constructors are compared on the empty container. evaluations = histories executed".into(),
+                rule: "BFS over (member map, adjacency) states reached by histories of insert (5 node objects: 3 graph nodes and 2 same-key impostors with different values), remove, and connect/try_connect/disconnect/isolate applied through handles taken from the container (get / index alternating) or, for non-members, the program's own handles; after every step every view (contains, len, is_empty, get, index, to_vec, iter, roots, leaves, orphans) is compared with a map model plus the reference adjacency, return values of insert/remove with the model, edge operations with the C03 contract observed through the program's own handles (identity), and the DOT exports are parsed statement by statement (to_dot on every state and every hash seed, to_dot_with_attr for all 4^3 callback combinations on small states); the three constructors are compared on the empty container; everything is explored twice: with the program keeping its own handle to every node, and with the container holding the only strong handle of its members (handles are dropped on insert and taken back from remove); insert/remove must not change any adjacency. evaluations = histories executed".into(),
                 bounds: params.clone(),
                 exhaustive: true,
                 assumptions: vec![
